@@ -5,7 +5,7 @@ from packaging.markers import Marker as PkgMarker
 
 from dep_logic.markers import parse_marker
 
-from ..mpools import CaseTimeout, atoms, environments, time_limit
+from ..mpools import CaseTimeout, atoms, environments, group_texts, time_limit
 from ..pools import Rng
 
 SET_ATOMS = ['"a" in extras', '"b" not in extras', '"A_b" in extras', '"g1" in dependency_groups', '"g2" not in dependency_groups']
@@ -17,6 +17,19 @@ def texts(rng, tier):
     A = [a for a in atoms() if not a.startswith("extra ") ]
     E = [a for a in atoms() if a.startswith("extra ")]
     out = list(A) + E
+    # same-variable ==/!= chains against every atom on that variable (and / or, both orders): partial-overlap absorption rules
+    G = group_texts()
+    for gi, g in enumerate(G):
+        var = g.split()[0]
+        same = [a for a in atoms(reversed_too=False) if a.split()[0] == var]
+        for ai, a in enumerate(same):
+            if tier == "quick" and (gi + ai + rng.randrange(3)) % 3:
+                continue
+            out += [f"({g}) and {a}", f"{a} and ({g})", f"({g}) or {a}", f"{a} or ({g})"]
+    for g1 in G:
+        for g2 in G:
+            if g1.split()[0] == g2.split()[0] and (tier != "quick" or rng.chance(1, 3)):
+                out += [f"({g1}) and ({g2})", f"({g1}) or ({g2})"]
     n = 300 if tier == "quick" else 3000
     for _ in range(n):
         a, b, c, d = (rng.choice(A + E) for _ in range(4))
